@@ -160,7 +160,7 @@ m = {
    "guard": "verif",
    "enable": "go build -tags verif (the harness module replaces the dependency with /repo)",
    "baseline_off_cmd": "cd /repo && go build ./... && go test -vet=off -count=1 -timeout 25m ./...",
-   "source_commits": ["9db60bf", "9f9cd1b", "d004980", "49e73a7"],
+   "source_commits": ["9db60bf", "9f9cd1b", "d004980", "49e73a7", "3bc6a51"],
    "add_only": True,
  },
  "engines": [
